@@ -11,5 +11,7 @@ CONSTANTS
   MaxAdds = 0
   AskSet = {}
   KeyMode = "any"
+  WalkMech = "bfs"
+  Prefix <- NoPrefixT
 POSTCONDITION Post
 CHECK_DEADLOCK FALSE
